@@ -49,6 +49,7 @@ pub struct Flavor {
     pub hard_fault_pm: u32,
     /// percentage of mutating calls that meet one transient storage error and are then simply tried again
     pub retry_fault_pct: u64,
+    pub retry_fault_max_k: u64,
 }
 
 pub fn base_flavor(prop: &'static str) -> Flavor {
@@ -67,6 +68,7 @@ pub fn base_flavor(prop: &'static str) -> Flavor {
         refgen_pct: 0,
         hard_fault_pm: 0,
         retry_fault_pct: 0,
+        retry_fault_max_k: 12,
     }
 }
 
@@ -121,7 +123,7 @@ pub fn flavor_for(prop: &str) -> Flavor {
         }
         "C05" => {
             f.prop = "C05";
-            f.oracles = Oracles { free_count: true, outcome: true, ..Default::default() };
+            f.oracles = Oracles { free_count: true, outcome: true, unmount_faults: 20, ..Default::default() };
             f.profile = |r| {
                 let mut p = Profile::mixed();
                 p.w_write = 30;
@@ -160,7 +162,7 @@ pub fn flavor_for(prop: &str) -> Flavor {
         }
         "C12" => {
             f.prop = "C12";
-            f.oracles = Oracles { dirty_bit: true, ..Default::default() };
+            f.oracles = Oracles { dirty_bit: true, unmount_faults: 15, ..Default::default() };
             f.status_pokes = true;
             f.profile = |r| {
                 let mut p = Profile::mixed();
@@ -309,7 +311,7 @@ pub fn engine_outcome(seed: u64, fl: &Flavor) -> RunOutcome {
         let mut src = Phased { a: Gen::new(gseed, a), b: Gen::new(gseed ^ 0x5555, b), stage: 0 };
         exec::run(cfg.clone(), fl.prop, &mut src, max_steps + 80)
     } else if fl.retry_fault_pct > 0 {
-        let mut g = crate::c14::FaultyFlush { g: Gen::new(gseed, prof), rng: Rng::new(gseed ^ 0xFA17), pending: None, pct: fl.retry_fault_pct, which: crate::c14::is_mutating };
+        let mut g = crate::c14::FaultyFlush { g: Gen::new(gseed, prof), rng: Rng::new(gseed ^ 0xFA17), pending: None, pct: fl.retry_fault_pct, which: crate::c14::is_mutating, max_k: fl.retry_fault_max_k, retry: fl.oracles.fault_resilient };
         exec::run(cfg.clone(), fl.prop, &mut g, max_steps * 2)
     } else {
         let mut g = Gen::new(gseed, prof);
@@ -348,7 +350,10 @@ pub fn engine_batches(prop: &'static str, tier: &str, seed: u64) -> Vec<Batch<'s
         // a hard storage error in the middle of an operation: afterwards only "no cross-link, no cycle, no
         // out-of-range link" is demanded (the run ends with that relaxed check)
         let mut f3 = fl.clone();
-        f3.hard_fault_pm = 60;
+        f3.hard_fault_pm = 30;
+        // ... and a quarter of the calls that change the volume (they are the ones that leave something half done)
+        f3.retry_fault_pct = 25;
+        f3.retry_fault_max_k = 40;
         let n3 = n_benign;
         out.push(Batch { name: "C03-hard-fault(one hard device error, then the relaxed structural check)".into(), runs: n3, f: Box::new(move |i| engine_outcome(crate::rng::run_seed(seed, 3, i), &f3)) });
     }
@@ -360,6 +365,17 @@ pub fn engine_batches(prop: &'static str, tier: &str, seed: u64) -> Vec<Batch<'s
         f4.oracles.fault_resilient = true;
         let n4 = n_benign;
         out.push(Batch { name: "C12-transient-storage-error-then-retry(status-byte rules only after the first error)".into(), runs: n4, f: Box::new(move |i| engine_outcome(crate::rng::run_seed(seed, 4, i), &f4)) });
+    }
+    if prop == "C03" {
+        // every fault position of calls that change the volume (the positions between two dependent table writes are few
+        // and seeded faults rarely land there): after the failed call the table must have no cross-link, cycle,
+        // out-of-range link or link from an allocated entry into a free cluster
+        let n5 = if tier == "quick" { 300u64 } else { 12_000 };
+        out.push(Batch {
+            name: "C03-single-fault-enumeration(every device call of mutating operations fails in turn; relaxed structural check after the failed call)".into(),
+            runs: n5,
+            f: Box::new(move |i| crate::c09::scenario_for(crate::rng::run_seed(seed, 5, i), false, 80, "C03", Oracles { fsck: true, ..Default::default() }, true)),
+        });
     }
     if !matches!(prop, "C13") {
         out.push(Batch { name: format!("{}-benign-faults(eintr,short_read,short_write)", prop), runs: n_benign, f: Box::new(move |i| engine_outcome(crate::rng::run_seed(seed, 2, i), &f2)) });
